@@ -1449,6 +1449,13 @@ def loadedToJson (l : Option Loaded) : Json :=
   | some t => Json.mkObj [("ok", Json.mkObj [("obs", .arr (t.obs.map jToJson).toArray),
       ("samp", .arr (t.samp.map jToJson).toArray), ("grid", gridToJson t.grid)])]
 
+/-- equal up to the order of the top-level keys (the streamed form of the writer emits them in
+    another order than the returned-string form) -/
+def sameDoc (a b : J) : Bool :=
+  match a, b with
+  | .obj ka, .obj kb => ka.length == kb.length && ka.all (fun x => kb.contains x) && kb.all (fun x => ka.contains x)
+  | a, b => a == b
+
 def handleJson (req : Json) : R Json := do
   let doc ← asJ (← fld req "doc")
   let dOk ← boolFD req "date_ok" false
@@ -1481,7 +1488,7 @@ def handleJson (req : Json) : R Json := do
       let wt : WTable := { obs, samp, omd := mdOf "rows", smd := mdOf "columns", grid,
                            ttype := sOf "type", tableId := sOf "id", generatedBy := sOf "generated_by",
                            date := sOf "date" }
-      pure (docOf wt == doc && wt.wfb dateOk)
+      pure (sameDoc (docOf wt) doc && wt.wfb dateOk)
   let mv := validateJson dateOk doc
   let ml := reportLinesJson dateOk doc
   let mload := loadJson doc
@@ -1593,7 +1600,17 @@ def handleH5 (req : Json) : R Json := do
     | some w => do
       pure (strsOf tree ["observation", "ids"] == some (← listF asStr w "obs") &&
             strsOf tree ["sample", "ids"] == some (← listF asStr w "samp"))
-  let writerOk := (!isBase || writerTreeB dateOk tree) && idsOk
+  -- a file the library wrote is not corrupt by the property's own predicate (every conjunct, the
+  -- unenforced ones included), and its offset arrays have one entry per ID plus one
+  let layoutOk :=
+    match tree.lenOf ["observation", "ids"], tree.lenOf ["sample", "ids"] with
+    | some n, some m =>
+      tree.lenOf ["observation", "matrix", "indptr"] == some (n + 1) &&
+      tree.lenOf ["sample", "matrix", "indptr"] == some (m + 1) &&
+      tree.lenOf ["observation", "matrix", "indices"] == tree.lenOf ["observation", "matrix", "data"] &&
+      tree.lenOf ["sample", "matrix", "indices"] == tree.lenOf ["sample", "matrix", "data"]
+    | _, _ => false
+  let writerOk := (!isBase || (writerTreeB dateOk tree && structuralHB tree && layoutOk)) && idsOk
   let agree := applyAgree && mv == verdict && linesAgree && writerOk
   let what := (if applyAgree then [] else ["apply"]) ++ (if mv == verdict then [] else ["verdict"]) ++
     (if linesAgree then [] else ["report_lines"]) ++ (if writerOk then [] else ["writer_invariants"])
